@@ -522,14 +522,14 @@ func vmValueEqual(f protoreflect.FieldDescriptor, a, b protoreflect.Value, tag s
 	}
 }
 
-// HarnessMessageRoundTrip: C01 / C08 / C03 on whole messages. encode must
-// fail exactly when a string in the message is not valid UTF-8; otherwise the
-// output is one RFC 8259 value whose tree is the documented mapping of the
-// message, and decoding that text into a fresh message gives the same content.
-func HarnessMessageRoundTrip() {
-	vb := &vmBuilder{u: verifMsgUniverse(), utf8OK: true}
-	msg, want := vb.draw()
-	c := &Codec{refl: j5reflect.New()}
+// vmEncodeChecked: draw a message, encode it with the real codec and check the
+// text against the documented mapping. ok=false when there is nothing further
+// to do on this path (invalid UTF-8 rejected, or a failure already reported).
+func vmEncodeChecked() (vb *vmBuilder, c *Codec, msg *j5schema.VerifDynMessage, out []byte, toks []json.Token, ok bool) {
+	vb = &vmBuilder{u: verifMsgUniverse(), utf8OK: true}
+	var want *refNode
+	msg, want = vb.draw()
+	c = &Codec{refl: j5reflect.New()}
 	verifTermBudget(8000000)
 	out, err := c.encode(msg)
 	verifEndTermBudget()
@@ -544,17 +544,30 @@ func HarnessMessageRoundTrip() {
 	if verifParam("debug", 0) == 1 {
 		panic("DEBUG-OUTPUT " + string(out))
 	}
-	var toks []json.Token
-	tree, end, ok := refParseJSON(out, 0, &toks)
-	verifAssert(ok && end == len(out), "output-is-one-json-value")
-	if !ok || end != len(out) {
+	tree, end, pok := refParseJSON(out, 0, &toks)
+	verifAssert(pok && end == len(out), "output-is-one-json-value")
+	if !pok || end != len(out) {
 		return
 	}
 	refTreeEqual(tree, want, "")
-	if verifParam("back", 1) == 0 {
+	ok = true
+	return
+}
+
+// HarnessMessageEncode: C08 on whole messages. encode fails exactly when a
+// string in the message is not valid UTF-8; otherwise the output is one
+// RFC 8259 value whose tree is the documented mapping of the message.
+func HarnessMessageEncode() {
+	vmEncodeChecked()
+}
+
+// HarnessMessageRoundTrip: C01 on whole messages: as HarnessMessageEncode, then
+// decoding that text into a fresh message gives the same content.
+func HarnessMessageRoundTrip() {
+	vb, c, msg, out, toks, ok := vmEncodeChecked()
+	if !ok {
 		return
 	}
-	// and back
 	verifToks, verifTokPos = toks, 0
 	back := j5schema.VerifNewDynMessage(vb.u.Message("m.v1.Root"))
 	verifTermBudget(8000000)
@@ -1088,5 +1101,44 @@ func HarnessQueryDecode() {
 	if err1 == nil {
 		vmSame(want, m1, "-query")
 		vmSame(m1, want, "-query-reverse")
+	}
+}
+
+// HarnessUnsupportedTarget: C06 names "any target message type". A message
+// type J5 cannot represent (a fixed64 field, a map with non-string keys is
+// similar) makes schema reflection fail; every codec entry point must then
+// return an error (or succeed), never panic.
+func HarnessUnsupportedTarget() {
+	bad := &descriptorpb.DescriptorProto{Name: proto.String("Bad"), Field: []*descriptorpb.FieldDescriptorProto{
+		vmField("f", 1, descriptorpb.FieldDescriptorProto_TYPE_FIXED64, ""), vmField("a", 2, dtStr, "")}}
+	fdp := &descriptorpb.FileDescriptorProto{Name: proto.String("b/v1/b.proto"), Package: proto.String("b.v1"), Syntax: proto.String("proto3"),
+		MessageType: []*descriptorpb.DescriptorProto{bad}}
+	u := j5schema.VerifNewUniverse(fdp)
+	c := &Codec{refl: j5reflect.New()}
+	msg := j5schema.VerifNewDynMessage(u.Message("b.v1.Bad"))
+	switch ndChoice("entry", 3) {
+	case 0:
+		_, err := c.encode(msg)
+		verifAssert(err != nil, "unrepresentable-type-not-encoded")
+	case 1:
+		doc := &verifDoc{}
+		doc.delim('{')
+		if ndBool("member") {
+			doc.str("a")
+			doc.sep(':')
+			doc.str("x")
+		}
+		doc.delim('}')
+		verifToks, verifTokPos = doc.toks, 0
+		err := c.decode(doc.text, msg)
+		verifAssert(err != nil, "unrepresentable-type-not-decoded")
+	case 2:
+		q := url.Values{}
+		if ndBool("parameter") {
+			q["a"] = []string{"x"}
+		}
+		err := c.decodeQuery(q, msg)
+		verifReach("query-returned")
+		_ = err
 	}
 }
